@@ -513,10 +513,11 @@ def numeric_cb(points, tol=1e-9, as_array=False):
     guard, gcl = k_aux.calcule_base_generic(L(orig[0]), L(orig[1]), L(orig[2]), L(v3), False)
     bad = [c for c in cl if not c.holds(tol, sc)]
     d, e = orig[2] - orig[0], orig[1] - orig[0]
-    if np.linalg.norm(np.cross(d, e)) > 1e-3 * np.linalg.norm(d) * np.linalg.norm(e):
+    sine = np.linalg.norm(np.cross(d, e)) / max(np.linalg.norm(d) * np.linalg.norm(e), 1e-300)
+    if sine > 1e-5:        # clearly not collinear (float64 resolves the normal to ~1e-16/sine)
         un = np.cross(d, e)
         un = un / np.linalg.norm(un)
-        bad += [c for c in spec.eqs("generic_v3_is_unit_normal", L(v3), L(un)) if not c.holds(1e-7)]
+        bad += [c for c in spec.eqs("generic_v3_is_unit_normal", L(v3), L(un)) if not c.holds(1e-7 if sine > 1e-3 else 1e-6)]
     return bad
 
 
@@ -543,6 +544,26 @@ def _cb_families(tier, seed):
             for a, b in ((0.5, 1.0), (-1.0, 1.0), (2.0, -1.5)):
                 p0 = rng.integers(-4, 5, 3) * 0.25
                 fam.append(("collinear-near-axis", [p0.tolist(), (p0 + a * dd).tolist(), (p0 + b * dd).tolist()]))
+    # special magnitudes: |p2-p0|, |p1-p0| equal or very close to 1 (and 0.5, 2): where a "skip the normalisation" shortcut would bite
+    for _ in range(n // 3):
+        u = rng.normal(size=3)
+        u /= np.linalg.norm(u)
+        w = rng.normal(size=3)
+        w /= np.linalg.norm(w)
+        l1 = float(rng.choice([1.0, 0.5, 2.0])) * (1.0 + float(rng.choice([0.0, 1e-7, -1e-7, 3e-6, -3e-6, 9e-6, -9e-6])))
+        l2 = float(rng.choice([1.0, 0.5, 2.0, 0.37])) * (1.0 + float(rng.choice([0.0, 3e-6, -9e-6])))
+        p0 = rng.integers(-4, 5, 3) * 0.25
+        fam.append(("special-magnitudes", [p0.tolist(), (p0 + l2 * w).tolist(), (p0 + l1 * u).tolist()]))
+    # nearly straight (NOT collinear) triples at several scales: bend 1e-5 .. 2e-2
+    for sc in (1e-3, 1e-2, 1.0, 1e2):
+        for _ in range(n // 12):
+            u = rng.normal(size=3)
+            u /= np.linalg.norm(u)
+            perp = np.cross(u, rng.normal(size=3))
+            perp /= np.linalg.norm(perp)
+            bend = float(rng.choice([3e-5, 1e-4, 1e-3, 2e-2]))
+            p0 = rng.integers(-4, 5, 3) * 0.25 * sc
+            fam.append(("nearly-straight", [p0.tolist(), (p0 - 0.7 * sc * u + 0.7 * sc * bend * perp).tolist(), (p0 + sc * u).tolist()]))
     for _ in range(n):
         dd = rng.integers(-9, 10, 3).astype(float)
         if not dd.any():
